@@ -357,7 +357,7 @@ func RunC09(e *Env) (int, error) {
 	c.race = libsim.NewPool(e.Tree.Worker("race"), raceWorkers, 0, "GORACE=halt_on_error=1 exitcode=66")
 	defer c.race.Close()
 
-	n := int64(e.Pick(2500, 60000))
+	n := e.N(2500, 60000)
 	K := e.Pick(6, 24)
 	coopEvery := int64(4)
 	realEvery := int64(e.Pick(60, 25))
@@ -394,6 +394,9 @@ func RunC09(e *Env) (int, error) {
 				}
 			}
 			ev.Eval(key)
+			if res != nil {
+				e.Log(run, "sched", k, cs.Other, res.Probes.Sig, res.Probes.Steps, o)
+			}
 			ev.Count("schedule_mode."+s.Mode, 1)
 			if o != nil {
 				return report(&cs, "schedule", o)
@@ -426,6 +429,7 @@ func RunC09(e *Env) (int, error) {
 				ev.Eval("")
 				ev.Count("interleaved_runs", 1)
 				if res != nil {
+					e.Log(run, "coop", cs.Coop, res.Switches, res.Probes.Sig, o)
 					ev.Count("probe.task_switches", res.Probes.Switches)
 					ev.Distinct("interleavings", fmt.Sprint(res.Switches))
 					if o != nil {
